@@ -182,6 +182,10 @@ def run(ch, render=False):
         psub = ch.draw(1 << 16, "prefix_bytes")
         for i in range(len(pkts)):
             prefixes.append(payload(psub + i, k) if psub else (b"\xff" * k))
+        if ch.chance(1, 10, "prefix_magic"):
+            # the foreign bytes in front of the first packet spell a file-format magic number
+            m = ch.pick(factory.MAGICS, "magic")
+            prefixes[0] = (m + prefixes[0])[:k]
     parts = []
     layout = []
     pos = 0
